@@ -162,6 +162,20 @@ func init() {
 		},
 		Oracles: func() []Oracle { return []Oracle{&ReclaimOracle{}} },
 	}
+	Props["C05"] = PropDef{
+		Gen: func(t *rapid.T, thorough bool) *Script {
+			o := mixedOpts(thorough)
+			o.Faults, o.BindFailures, o.MIG = false, false, false
+			switch pick(t, "c05profile", "mixed", "mixed", "pressure", "unobstructed", "unobstructed") {
+			case "pressure":
+				return GenPressureScript(t, "C05", "progress-pressure", o)
+			case "unobstructed":
+				return GenUnobstructedScript(t, o)
+			}
+			return GenScript(t, "C05", "progress-mixed", o)
+		},
+		Oracles: func() []Oracle { return []Oracle{ProgressOracle{}} },
+	}
 	Props["C18"] = PropDef{
 		Gen:     GenC18Script,
 		Oracles: func() []Oracle { return nil },
